@@ -69,10 +69,12 @@ def check_C02(ctx):
         f = files_of(r, w)
         days = [h for h, _ in log_days(w)]
         col = {} if r.random() < 0.25 else NOCOLOR
+        if days and r.random() < 0.3:      # "every selected day in file order": with a period on a log whose days may be out of order
+            col = dict(col, **{r.choice(["g_end", "l_end", "g_begin"]): r.choice(days)})
         cases.append(dict(files=f, cmd="reg", **col))
         cases.append(dict(files=f, cmd="reg", template="left-aligned", **col))
         cases.append(dict(files=f, cmd="reg", old=True, **col))
-        if days: cases.append(dict(files=f, cmd="summary", arg=r.choice(days).encode(), **col))
+        if days: cases.append(dict(files=f, cmd="summary", arg=r.choice(days).encode(), **{k2: v for k2, v in col.items() if k2 not in ("g_end", "l_end", "g_begin")}))
         d = log_days(w)
         rep_food = any(len({x for x, _ in es}) < len(es) for _, es in d)
         if rep_food or any(len(v) > 0 for v in w["meta"]["defs"].values()): ctx.nontriv(f["log.yaml"] + f["food.yaml"])
@@ -187,6 +189,16 @@ def check_C03(ctx):
         for m in modes:
             cases.append(dict(files={"food.yaml": b"", "log.yaml": log.encode()}, cmd="bal", **m, **NOCOLOR)); meta.append((s, log))
         ctx.nontriv(log)
+    # amounts beyond single precision, long days (more distinct foods than a small fixed capacity, the first food repeated)
+    for k in range(ctx.scale(30, 500)):
+        n = r.randint(9, 20)
+        names = ["%s/%s" % (r.choice("abc"), gen.word(r, 2, 5)) for _ in range(n)]
+        es = [(nm, r.choice(["300000.87", "16777217", "131072.13", "2", "0.5", "1234567.89", "-250000.37"])) for nm in names]
+        es.insert(r.randint(3, len(es)), (names[0], "2")); es.append((names[r.randrange(len(names))], "3"))
+        log = "2021/01/01:\n" + "".join("  %s: %s\n" % e for e in es)
+        for m in modes:
+            cases.append(dict(files={"food.yaml": b"", "log.yaml": log.encode()}, cmd="bal", **m, **NOCOLOR)); meta.append((None, log))
+        ctx.nontriv(log)
     ctx.notes["exhaustive_path_sets"] = dict(segments="ab", max_depth=3, max_paths=ctx.scale(3, 4), sets=len(sets), every_second_3_set_only=(ctx.tier == "quick"))
     # random: deeper, shared prefixes, forks below chains, empty segments, single element with a book
     for k in range(ctx.scale(700, 10000)):
@@ -273,9 +285,41 @@ def tie_world(r):
         for f in r.sample(foods, min(len(foods), r.randint(2, 6))): log.append(("entry", f, r.choice(["1", "1", "2"])))
     return book, log
 
+def boundary_world(r):
+    """amounts whose sum lies on a two-decimal rounding boundary: the order of the additions decides the printed digit"""
+    vals = ["0.105", "0.155", "1.975", "0.335", "2.675", "1.005", "0.015", "0.045", "1.115", "0.285", "0.565"]
+    n = r.randint(3, 6)
+    book = []; log = [("heading", "2021/01/01")]
+    for j in range(n):
+        f = "%s/item%d" % (r.choice(["grp%d" % j, "g%d" % j]), j)
+        book += [("heading", f), ("entry", "kcal", r.choice(vals))]
+        log.append(("entry", f, "1"))
+    return book, log
+
 def check_C05(ctx):
     r = ctx.rng
     cases = []
+    for k in range(ctx.scale(40, 600)):
+        book, log = boundary_world(r)
+        f = {"food.yaml": gen.render_items(r, book), "log.yaml": gen.render_items(r, log)}
+        for extra in (dict(cmd="bal", single_element="kcal"), dict(cmd="totals"), dict(cmd="reg", single_element="kcal", group_food=True), dict(cmd="reg")):
+            cases.append(dict(files=f, f_today="2021/01/05", **extra, **NOCOLOR))
+        ctx.nontriv(f["food.yaml"] + f["log.yaml"])
+    # stats reads two files: exactly one of them malformed, both long enough for two concurrent readers to finish in either order
+    for k in range(ctx.scale(4, 40)):
+        n = r.randint(200, 400)
+        bookb = b"".join(b"food%d:\n  kcal: %d\n" % (j, j) for j in range(n))
+        logb = b"".join(b"2021/%02d/%02d:\n  food%d: 1\n" % (j % 12 + 1, j % 28 + 1, j) for j in range(n))
+        if k % 2 == 0: bookb += b"last:\n  kcal: 12O\n"
+        else: logb += b"2021/12/30:\n  oops\n"
+        cases.append(dict(files={"food.yaml": bookb, "log.yaml": logb}, cmd="stats", f_today="2022/01/05", **NOCOLOR))
+    # the period keywords are resolved against --today, never against the clock
+    for k in range(ctx.scale(10, 100)):
+        book, log = tie_world(r)
+        f = {"food.yaml": gen.render_items(r, book), "log.yaml": gen.render_items(r, log)}
+        for cmd in ("reg", "csv-log", "bal"):
+            cases.append(dict(files=f, cmd=cmd, f_today="2021/01/02", g_begin=r.choice(["yesterday", "today", "last7"]), g_end=r.choice([None, "today", "yesterday"]), **NOCOLOR))
+        cases.append(dict(files=f, cmd="summary", arg=r.choice([b"today", b"yesterday"]), f_today="2021/01/02", **NOCOLOR))
     for k in range(ctx.scale(200, 2500)):
         book, log = tie_world(r)
         f = {"food.yaml": gen.render_items(r, book), "log.yaml": gen.render_items(r, log)}
@@ -467,10 +511,17 @@ def check_C07(ctx):
     cases = []; worlds = []
     CM = ["totals", "reg", "reg-sx", "reg-sxg", "bal", "bal-sx", "quantity", "csv-log", "element-total", "csv-db-resolved", "summary", "unresolved", "csv-db", "stats", "reg-csv"]
     for k in range(ctx.scale(350, 6000)):
-        w = simple_world(r, envelope=True, pathy=0.15)
-        f = files_of(r, w)
+        w = simple_world(r, envelope=True, pathy=0.3)
         els = gen.element_names(w) or ["x"]
         x = r.choice(els)
+        if k % 3 == 0:
+            # a food whose name is the category prefix of another food, both carrying the element (amounts booked on an inner node)
+            g = gen.word(r, 3, 6)
+            w["book"] += [("heading", g), ("entry", x, gen.number(r, True)), ("heading", g + "/sub"), ("entry", x, gen.number(r, True))]
+            for it_i, it in enumerate(list(w["log"])):
+                if it[0] == "heading":
+                    w["log"].insert(it_i + 1, ("entry", g, gen.number(r, True))); w["log"].insert(it_i + 2, ("entry", g + "/sub", gen.number(r, True))); break
+        f = files_of(r, w)
         days = [h for h, _ in log_days(w)]
         day = r.choice(days) if days else "2021/01/20"
         base = dict(files=f, f_today="2021/02/01", **NOCOLOR)
@@ -625,6 +676,14 @@ def check_C08(ctx):
         els = [e.encode() for e in gen.element_names(w)] or [b"x"]
         forms = all_command_forms(r, f, x=r.choice(els))
         pick = forms if ctx.tier == "thorough" else r.sample(forms, 6)
+        for c in r.sample(forms, 2):      # the same commands under a random combination of their boolean flags
+            c2 = dict(c)
+            flags = {"reg": ["no_totals", "totals_only", "shorten", "old", "csv", "group_food", "l_no_color"], "bal": ["collapse", "collapse_last"],
+                     "quantity": ["desc"], "element-total": ["desc"], "lint": ["silent"]}.get(c["cmd"], [])
+            for fl in flags:
+                if r.random() < 0.5: c2[fl] = True
+            if c["cmd"] == "reg" and r.random() < 0.5: c2["template"] = r.choice(["left-aligned", "default", "nonsense"])
+            pick = pick + [c2]
         for c in pick:
             if r.random() < 0.1: c["f_depth"] = r.choice([0, -1, 1, 2, 1000000])
             cases.append(c)
@@ -636,7 +695,9 @@ def check_C08(ctx):
     odd = [dict(base, cmd="element-total"), dict(base, cmd="lint"), dict(base, cmd="summary"), dict(base, cmd="reg", single_food="(["), dict(base, cmd="reg", single_food="a.*b"),
            dict(base, cmd="reg", f_fmt="Jan 2 2006"), dict(base, cmd="reg", f_fmt=""), dict(base, cmd="reg", g_begin="next tuesday"), dict(base, cmd="reg", g_begin="garbage!!"),
            dict(base, cmd="reg", f_depth=10000000), dict(base, cmd="csv-db-resolved", f_depth=10000000), dict(base, cmd="bal", f_depth=0), dict(base, cmd="totals", f_depth=-5),
-           dict(base, cmd="summary", arg=b"not a date"), dict(base, cmd="stats", f_fmt="02.01.2006"), dict(base, cmd="reg", no_database=True), dict(base, cmd="stats", no_database=True)]
+           dict(base, cmd="summary", arg=b"not a date"), dict(base, cmd="reg", single_food="("), dict(base, cmd="reg", single_food="*bread"), dict(base, cmd="reg", single_food="a(b", old=True),
+           dict(dict(base, files=dict(f0, **{"log.yaml": b""})), cmd="reg", single_food="("), dict(base, cmd="reg", no_totals=True, totals_only=True), dict(base, cmd="reg", no_totals=True, totals_only=True, old=True),
+           dict(base, cmd="stats", f_today="2020/01/01"), dict(base, cmd="stats", f_today="1999/12/31"), dict(base, cmd="stats", f_fmt="02.01.2006"), dict(base, cmd="reg", no_database=True), dict(base, cmd="stats", no_database=True)]
     # cycles of every small length (direct, indirect, reached through a chain) under a huge limit given by flag, environment or configuration file
     for cyc in (1, 2, 3, 5):
         for lead in (0, 2):
@@ -674,18 +735,22 @@ def day_block(r, day, foods, envelope=True):
         items.append(("entry", r.choice(foods), gen.number(r, envelope)))
     return items
 
-PERDAY = [("reg", {}), ("reg", dict(template="left-aligned")), ("reg", dict(old=True)), ("csv-log", {}), ("print", {}), ("reg", dict(single_food="e")), ("reg", dict(single_element="kcal"))]
+PERDAY = [("reg", {}), ("reg", dict(shorten=True)), ("reg", dict(template="left-aligned")), ("reg", dict(old=True)), ("csv-log", {}), ("print", {}), ("reg", dict(single_food="e")), ("reg", dict(single_element="kcal"))]
 PERIOD = [("bal", {}), ("bal", dict(single_element="kcal")), ("totals", {}), ("quantity", {})]
 
 def check_C12(ctx):
     r = ctx.rng
     book = b"bread:\n  kcal: 250\n  fat: 1\ntea:\n  kcal: 2\nmeat/veal:\n  kcal: 100\n  prot: 20\nmeat/pork:\n  kcal: 0.5\n"
-    foods = ["bread", "tea", "meat/veal", "meat/pork", "water", "kcal", "sweets/cake"]
+    foods = ["bread", "tea", "meat/veal", "meat/pork", "water", "kcal", "sweets/cake", "vegetables/tomato/red/organic/100g", "a-very-long-food-name-that-does-not-fit", "drinks/hot/coffee", "drinks/hot/tea"]
     cases = []; triples = []
     for k in range(ctx.scale(200, 4000)):
         nb = r.randint(2, 6)
         days = gen.day_list(r, nb, sorted_=r.random() < 0.5, repeat=0.3)
-        blocks = [gen.render_items(r, day_block(r, d, foods), crlf=False, final_newline=True) for d in days]
+        dblocks = [day_block(r, d, foods) for d in days]
+        if r.random() < 0.2:      # members of one category that cancel across the two parts
+            q = r.choice(["3", "1.5", "8"])
+            dblocks[0].append(("entry", "drinks/hot/coffee", q)); dblocks[-1].append(("entry", "drinks/hot/tea", "-" + q))
+        blocks = [gen.render_items(r, b2, crlf=False, final_newline=True) for b2 in dblocks]
         cut = r.randint(1, nb - 1)
         l1, l2 = b"".join(blocks[:cut]), b"".join(blocks[cut:])
         ctx.nontriv(l1 + b"|" + l2); ctx.tally("blocks", nb)
@@ -745,8 +810,11 @@ def check_C13(ctx):
             w["log"].append(("heading", "2021/03/01")); w["log"].append(("entry", extra, gen.number(r)))
             w["book"].append(("heading", extra)); w["book"].append(("entry", r.choice(['e,1', 'plain', 'x"q"y', '\u2003em']), gen.number(r)))
         f = files_of(r, w)
+        tz = r.choice([None, None, ("Asia/Tokyo", 32400), ("Europe/Sofia", 7200), ("America/New_York", -18000), ("Pacific/Kiritimati", 50400)])
         for cmd in ("csv-log", "csv-db", "csv-db-resolved"):
-            cases.append(dict(files=f, cmd=cmd, **NOCOLOR)); metas.append(w)
+            c = dict(files=f, cmd=cmd, **NOCOLOR)
+            if tz: c["tz"] = tz
+            cases.append(c); metas.append(w)
         ctx.nontriv(f["food.yaml"] + f["log.yaml"])
         if k < 1: ctx.sample(dict(book=f["food.yaml"], log=f["log.yaml"]))
     ires = cli_diff(ctx, cases, tag="C13:")
@@ -896,8 +964,8 @@ def check_C15(ctx):
     # amounts that print as 0.00 / -0.00 but are not zero keep the colour of their sign; names that are path-prefixes of others in the balance
     for k in range(ctx.scale(12, 300)):
         tiny = [r.choice(["0.004", "-0.003", "0.0049", "-0.0049", "0.001", "-0.0001", "0.005", "-0.005", "0", "-0", "1e-9"]) for _ in range(4)]
-        f = {"food.yaml": ("mix:\n  kcal: %s\n  fat: %s\n" % (tiny[0], tiny[1])).encode(),
-             "log.yaml": ("2021/01/01:\n  mix: 1\n  trace: %s\n  other: %s\n  coffee: 1\n  coffee/cup: 2\n  tea/green: 1\n  tea: 0.5\n" % (tiny[2], tiny[3])).encode()}
+        f = {"food.yaml": ("mix:\n  kcal: %s\n  fat: %s\n  alcohol%%vol: 2\nmilk/3.5%%/100ml:\n  fat: 3.5\n  100%%: 1\n" % (tiny[0], tiny[1])).encode(),
+             "log.yaml": ("2021/01/01:\n  mix: 1\n  trace: %s\n  other: %s\n  coffee: 1\n  coffee/cup: 2\n  tea/green: 1\n  tea: 0.5\n  milk/3.5%%/100ml: 2\n  50%%off: 1\n" % (tiny[2], tiny[3])).encode()}
         for color in (True, False):
             for extra in (dict(cmd="reg"), dict(cmd="reg", template="left-aligned"), dict(cmd="reg", old=True), dict(cmd="summary", arg=b"2021/01/01"),
                           dict(cmd="bal"), dict(cmd="bal", collapse=True), dict(cmd="bal", collapse_last=True)):
@@ -1086,6 +1154,14 @@ def check_C16(ctx):
                                            lambda i: (i["status"] == "ok" and b"(10 days ago)" in i["stdout"], "--today is read in the effective date format and stats counts 10 days")))
             ctx.nontriv(json.dumps(["today-x-fmt", src, place]))
     ctx.sample(dict(setting="db", sources=dict(flag=True, env=True, cfg=True), config_at="HR_CONFIG", argv=run.argv_env(cases[10])[0]))
+    for place in ("flag", "env", "default"):
+        files = {"food.yaml": b"", "log.yaml": logf("from_default"), "real.yaml": logf("from_cfg"), "real.cfg": {"cfg": {"log": "real.yaml"}}}
+        c = dict(cmd="csv-log", **NOCOLOR)
+        if place == "flag": files["link.cfg"] = {"symlink": "real.cfg"}; c["f_config"] = "link.cfg"
+        elif place == "env": files["link.cfg"] = {"symlink": "real.cfg"}; c["e_config"] = "link.cfg"
+        else: continue
+        c["files"] = files
+        cases.append(c); expect.append(("config-through-symlink", dict(cfg=True), place, lambda i: (b"from_cfg" in i["stdout"], "a configuration file named through a symbolic link is loaded")))
     # explicit configuration file: loaded when it exists, an error when it does not
     f0 = {"food.yaml": b"", "log.yaml": b"2021/01/02:\n  x: 1\n"}
     miss = [dict(files=f0, cmd="csv-log", f_config="nope.cfg", **NOCOLOR), dict(files=f0, cmd="csv-log", e_config="nope.cfg", **NOCOLOR), dict(files=f0, cmd="stats", f_config="nope.cfg", f_today="2021/01/03", **NOCOLOR)]
@@ -1224,6 +1300,36 @@ def check_C18(ctx):
     ireq = [run.req(**{k2: v for k2, v in dict(a, **b2).items() if k2 != "nofile"}) for a, b2 in reqs]
     mres = run.run_model(mreq)
     ires = run.run_pub(ctx.impl, ireq, race=True)
+    # slow consumers: they come back to the receive loop long after the producer is ready (hundreds of milliseconds)
+    slow = [(d, policy) for d in datas[2:6] for policy in ("stop", "drain")]
+    sres = run.run_pub(ctx.impl, [run.req(op="chan", data=d, policy=policy, pause=300) for d, policy in slow], race=True)
+    smod = run.run_model([run.req(op="chan", data=d, policy=policy) for d, policy in slow])
+    for (d, policy), m, i in zip(slow, smod, sres):
+        ctx.count(); ctx.traces += 1; ctx.tally("schedule", "slow consumer")
+        if i != m:
+            ctx.violation("C18:slow-consumer:" + policy, "a consumer that returns to its receive loop after 300 ms observed %r, the callback parser's result is %r" % first_diff(m, i),
+                          dict(kind="chan", data=d, policy=policy, pause=300, model=m, impl=i))
+    # other parser configurations: the channel parser against the callback parser of the SAME implementation (no model in between)
+    for cc in (0, ord(";"), ord("-")):
+        sub = datas[:7] + datas[7::max(1, len(datas) // 40)]
+        pres = run.run_pub(ctx.impl, [run.req(op="parse", data=d, cc=cc) for d in sub])
+        for policy in ("stop", "drain"):
+            cres = run.run_pub(ctx.impl, [run.req(op="chan", data=d, policy=policy, cc=cc, seed=3, jitter=1) for d in sub], race=True)
+            for d, pr, cr in zip(sub, pres, cres):
+                ctx.count(); ctx.tally("comment_char", cc)
+                pl = pr.split(b"\n"); evs, ret = pl[:-1], pl[-1]
+                want = []
+                for e in evs:
+                    want.append(e)
+                    if e.startswith(b"E "): break
+                else:
+                    if ret != b"R ok": want.append(b"E scan:" + ret[2:])
+                ended_in_error = bool(want) and want[-1].startswith(b"E ")
+                if policy == "stop": want = want + ([] if ended_in_error else [b"D"])
+                else: want = want + [b"D", b"X exited"]
+                if cr.split(b"\n") != want:
+                    ctx.violation("C18:config:" + policy, "with comment character %d the %s consumer observed %r, the callback parser reports %r" % ((cc, policy) + first_diff(b"\n".join(want), cr)),
+                                  dict(kind="chan", data=d, policy=policy, cc=cc, callback_parser=pr, impl=cr))
     ctx.sample(dict(input=datas[4], policies=["stop", "drain"], schedules=S))
     for (d, policy, fault), m, i in zip(meta, mres, ires):
         ctx.count(); ctx.traces += 1
